@@ -29,7 +29,7 @@ FIXED = [
     "a[^\\x00-\\x{10FFFF}]|b", "\\x{100}", "\\x{100}|ab", "a\\bb", "(?:a{2}){2,3}", "(?:a{0,2}){2}", "(?:a|b){2,}c",
     "(?s:.)a", ".a", "\\Aa\\z", "(?m:^a$)", "a$|b", "(?:^|a)b", "a(?:$|b)", "(a)(b)?", "(?P<n>a+)b", "[ab][bc]c",
     "a*?b", "a+?", "a??b", "(?:a*b)*c", "((a)|b)*", "(?:a|b|c)(?:a|b|c)(?:a|b|c)", "\\xffa", "a\\n", "[a-c]{1,3}b",
-    "(?:a|(?:b|(?:c|ab)))c", "(?:a+)+b", "(?:a*)*b", "(?:(?:a|b)*c|a)b", "(?:a|ab|abc)+", "(?:b|a(?:b|c)*)d",
+    "(?:a|(?:b|(?:c|ab)))c", "b(?:ab|b)", "a(?:b|a$)", "bb(?:ab|b)", "b(?:ab|ca)", "ab(?:c|bc)a", "(?:a+)+b", "(?:a*)*b", "(?:(?:a|b)*c|a)b", "(?:a|ab|abc)+", "(?:b|a(?:b|c)*)d",
 ]
 
 
@@ -123,9 +123,23 @@ class Gen:
         return "(?i:" + e + ")" if r.random() < 0.5 else "(?U:" + e + ")"
 
 
+def word(rng, lo, hi):
+    return "".join(rng.choice("abc") for _ in range(rng.randrange(lo, hi + 1)))
+
+
 def gen_case(rng, idx):
     g = Gen(rng)
-    e = g.expr(rng.choice([1, 2, 2, 3, 3, 3, 4, 4]))
+    if rng.random() < 0.15:
+        # constant text around an alternation of words (the shape the suffix and length walks are made for)
+        ws = list(dict.fromkeys(word(rng, 1, 3) for _ in range(rng.choice([2, 2, 3]))))
+        alt = "|".join(ws + ([""] if rng.random() < 0.1 else []))
+        grp = rng.choice(["(?:%s)", "(%s)", "(?:%s)", "(?:%s)?", "(?:%s){2}", "(?:%s)+"]) % alt
+        e = word(rng, 0, 2) + grp + word(rng, 0, 2) + rng.choice(["", "", "", "$", "\\b"])
+        if rng.random() < 0.3:
+            e += rng.choice(["(?:%s)" % "|".join(word(rng, 1, 2) for _ in range(2)), "[ab]", "."])
+        g.wit.update("abc")
+    else:
+        e = g.expr(rng.choice([1, 2, 2, 3, 3, 3, 4, 4]))
     if rng.random() < 0.05:
         e = "(?i)" + e
         g.wit.add("A")
@@ -276,12 +290,14 @@ def main(tier, seed, replay=None):
         for i in range(ncase):
             cases.append(gen_case(rng, i))
     for c in cases:
-        c["la"], c["lf"] = la, lf
+        c.setdefault("la", la)
+        c.setdefault("lf", lf)
     impl, model, note, gosec, msec = execute(cases, exe, "main", la, lf)
     nviol, findings, stats = 0, [], {"compared": 0, "parse_error": 0, "assertion_free": 0, "with_assertions": 0, "unsat_rune": 0,
                                     "cachefree_compared": 0, "suffix_compared": 0, "nonempty_suffix": 0, "finite_max": 0,
-                                    "loops": 0, "strings_through_matcher": 0, "matches_observed": 0}
+                                    "loops": 0, "strings_through_matcher": 0, "matches_observed": 0, "deep_searches": 0}
     distinct = set()
+    verdicts = []
     for i, c in enumerate(cases):
         g, m = impl.get(str(i)), model.get(str(i))
         v = judge(c, g, m)
@@ -302,8 +318,27 @@ def main(tier, seed, replay=None):
             stats["matches_observed"] += int(g["find"].split(",")[0])
         if replay:
             print("case", c, "\nimpl ", {k: v for k, v in (g or {}).items() if k != "insts"}, "\nprogram", (g or {}).get("insts"), "\nmodel", m, "\nverdict", v)
-        if v is None:
-            continue
+        if v is not None:
+            verdicts.append((i, c, g, m, v))
+    # A disagreement between the code and the (proved sound) model that the first enumeration did not turn into a failing
+    # input is searched again, on exactly these expressions, with longer strings and the alphabet of the expression itself.
+    corr = [x for x in verdicts if x[4][0] == "corr"]
+    if corr and not any(x[4][0] == "impl" for x in verdicts):
+        deep = []
+        for i, c, g, m, v in corr[:24]:
+            lits = [ch for ch in dict.fromkeys(c["re"]) if ch.isalnum() or ch in " _-"]
+            for alpha in (c["alpha"], "".join(lits[:4]), "".join(lits[:3]) + "\n"):
+                if len(alpha) >= 2:
+                    deep.append({"re": c["re"], "alpha": alpha, "covered": False, "la": 5, "lf": 8 if len(alpha) <= 3 else 7, "orig": i})
+        stats["deep_searches"] = len(deep)
+        dimpl, dmodel, _, _, _ = execute(deep, exe, "deep", 5, 8)
+        for k, dc in enumerate(deep):
+            dv = judge(dc, dimpl.get(str(k)), dmodel.get(str(k)))
+            if dv is not None and dv[0] == "impl":
+                verdicts.insert(0, (dc["orig"], dc, dimpl.get(str(k)), dmodel.get(str(k)), dv))
+                break
+    verdicts.sort(key=lambda x: 0 if x[4][0] == "impl" else 1)
+    for i, c, g, m, v in verdicts[:5]:
         kind, text = v
         obj = {"property": PROP, "re": c["re"], "alpha": c["alpha"], "covered": c["covered"], "what": text,
                "impl": {k: x for k, x in (g or {}).items() if k not in ("insts", "acc")},
@@ -315,8 +350,6 @@ def main(tier, seed, replay=None):
             obj["broken"] = "correspondence between theories/RegexProg.v and regexAnalysis.go / binaryregexp: " + text
             violation(PROP, obj, no_input=True)
         nviol += 1
-        if nviol >= 5:
-            break
     if note and nviol == 0:
         violation(PROP, {"property": PROP, "broken": "correspondence harness could not run against this tree", "note": note}, no_input=True)
         nviol += 1
